@@ -97,6 +97,9 @@ var (
 	errExecutorConfigMustBeStringOrMap = errors.New(
 		"executor config must be string or map",
 	)
+	errNullElement = errors.New(
+		"steps, functions and preconditions must not contain null elements",
+	)
 )
 
 // build builds a DAG from a configuration definition and the base DAG.
@@ -117,6 +120,11 @@ func (b *builder) build(def *definition, envs []string) (*DAG, error) {
 		Tags:        parseTags(def.Tags),
 	}
 	b.stepBuilder = stepBuilder{noEval: b.opts.noEval}
+
+	if err := assertNoNullElements(def); err != nil {
+		b.errs.Add(err)
+		return nil, &b.errs
+	}
 
 	b.callBuilderFunc(b.buildEnvs)
 	b.callBuilderFunc(b.buildSchedule)
